@@ -1,4 +1,4 @@
-HOOK_COMMITS = ["37f15b8", "df87741", "8885e82"]
+HOOK_COMMITS = ["37f15b8", "df87741", "8885e82", "f24b31a"]
 NOTES = ("Technique family: machine-checked proof in Coq 8.16.1. Every check regenerates coq/Gen from /repo, rebuilds the "
          "Coq development (full .vo), re-extracts the model, rebuilds the Go harness against /repo with -tags verif, and "
          "runs the correspondence + oracle pipeline. See DESIGN.md.")
@@ -152,7 +152,7 @@ CLAIMED = {
          "paths); the model is compared with the real loop after every script line (callbacks with error class, byte "
          "count and depth, Pending(), Dispatched, interest bits, registry membership, the batch itself)."),
    note=("Trusted: Coq kernel, extraction, harness glue, the kernel environment model (validated by the correspondence run). "
-         "Modelled: File and Conn-as-file objects; listener, packet and AsyncAdapter copies of the logic are not (C02, C13 "
+         "Modelled: File, Conn-as-file and listener objects; packet conn, multicast peer and AsyncAdapter copies of the logic are not (C02, C13 "
          "cover the adapter). The induction of the ledger over whole histories is not proved in Coq."),
    technique="Coq proof of the per-step dispatch lemmas over all batches and handler programs; differential correspondence + extracted exactly-once ledger oracle over histories"),
  "C03": dict(
